@@ -40,6 +40,11 @@ def run(rep):
     # the semicolon-in-string/comment theorems are stated over Lexer/LexerModel.v: tie that model to the CURRENT lexer.go (a difference is a broken correspondence)
     import lexcommon
     lexcommon.lexer_premise(rep, broken, ())
+    # C06_fragment_* are stated over Select/SelectParseModel.v + SelectPrintModel.v: tie them to the CURRENT parser and printer
+    import searchcommon
+    b2, summ = searchcommon.run_selectcore(rep, 1500 if rep.tier == "quick" else 20000)
+    broken += b2
+    rep.coverage["selectcore_correspondence"] = summ
     verif.report_broken(rep, broken, found)
     rep.assumptions = ["INSERT ... FORMAT <inline data> / VALUES payloads are excluded (as in the property)"]
 
